@@ -445,6 +445,14 @@ def run(ctx) -> None:
     r = core.returns(hm.func("format_diff"))
     ctx.ob("FORWARD", "helpers.format_diff", len(r) == 1 and nun(r[0].value) == "difference_formatter.format(diff, is_now, absolute, locale)",
            f"{[nun(x.value) for x in r]}", hm.rel)
+    body = [nun(s_) for s_ in core.body_no_doc(hm.func("format_diff"))]
+    ctx.ob("LOCALE.default", "helpers.format_diff/default-locale", "if locale is None:\n    locale = get_locale()" in body,
+           f"{body}; without an explicit locale the process-wide one (set_locale) must be used - DifferenceFormatter falls back to "
+           f"its own constructor locale 'en' for None", hm.loc(hm.func("format_diff")))
+    for mod_, q in ((pmod("duration"), "Duration.in_words"), (pmod("interval"), "Interval.in_words"), (pmod("formatting.formatter"), "Formatter.format")):
+        src_ = nun(mod_.func(q))
+        ctx.ob("LOCALE.default", f"{q}/default-locale", "pendulum.get_locale()" in src_,
+               "the default locale must come from pendulum.get_locale()", mod_.loc(mod_.func(q)))
     for modname, cls in (("datetime", "DateTime"), ("date", "Date"), ("time", "Time")):
         mm = pmod(modname)
         f2 = mm.func(f"{cls}.diff_for_humans")
